@@ -40,3 +40,12 @@ class BreakSignal(Exception):
 
 class ContinueSignal(Exception):
     pass
+
+
+class LoopCut(Exception):
+    """Invariant mode: control returned to the head of a loop that the obligation cuts after `n` iterations
+    (the harness judges the loop invariant on the state reached; see Interp.loop_cut)."""
+
+    def __init__(self, qualname, iterations):
+        super().__init__(f"loop of {qualname} cut after {iterations} iteration(s)")
+        self.qualname, self.iterations = qualname, iterations
